@@ -26,27 +26,5 @@ fn canary_ssn_gt_is_plain_greater() {
     assert!(ssn_gt(a, b) == (a > b));
 }
 
-// ---- Kani twin of the Verus InboundStream contract (bounded: two messages), gives replayable counterexamples
-fn msg(tag: u8) -> Bytes { if tag == 0 { Bytes::from_static(&[0xA0]) } else { Bytes::from_static(&[0xB1]) } }
-/// two messages with consecutive SSNs (any start, incl. 65535 -> 0) arriving in either order are
-/// released exactly once each, in SSN order, and the stream ends with next_ssn advanced by 2
-#[kani::proof]
-#[kani::unwind(14)]
-#[kani::stub(tracing::callsite::DefaultCallsite::interest, st_interest)]
-#[kani::stub(tracing::__macro_support::__is_enabled, st_enabled)]
-#[kani::stub(tracing::Event::dispatch, st_dispatch)]
-fn c01_inbound_two_messages_any_order() {
-    let s0: u16 = kani::any();
-    let mut st = InboundStream { next_ssn: s0, pending: BTreeMap::new() };
-    let swapped: bool = kani::any();
-    let (first, second) = if swapped { (1u16, 0u16) } else { (0u16, 1u16) };
-    let o1 = st.enqueue(s0.wrapping_add(first), msg(first as u8));
-    let o2 = st.enqueue(s0.wrapping_add(second), msg(second as u8));
-    if swapped {
-        assert!(o1.is_empty() && o2.len() == 2 && o2[0][0] == 0xA0 && o2[1][0] == 0xB1);
-    } else {
-        assert!(o1.len() == 1 && o1[0][0] == 0xA0 && o2.len() == 1 && o2[0][0] == 0xB1);
-    }
-    assert!(st.next_ssn == s0.wrapping_add(2) && st.pending.is_empty());
-    core::mem::forget(o1); core::mem::forget(o2); core::mem::forget(st);
-}
+// (A Kani twin of the Verus InboundStream contract — two enqueues on a BTreeMap — was measured:
+// it does not finish in 900 s even with unwind(14); BTreeMap stays out of CBMC's reach here.)
